@@ -4,7 +4,7 @@ import (
 	"fmt"
 	"go/types"
 	"sort"
-		"strings"
+	"strings"
 
 	"golang.org/x/tools/go/ssa"
 
@@ -21,7 +21,7 @@ type EmitterRoles struct {
 	Tracker, GenText, Code, N, Address, Base, Labels, Lines int
 	Dangling                                                []int // map[string][]uint32 fields
 	Err                                                     []string
-	Methods                                                 []*ssa.Function // exported methods, sorted
+	Methods                                                 []*ssa.Function        // exported methods, sorted
 	WriterFns                                               map[*ssa.Function]bool // methods that copy a []byte argument into the target
 }
 
